@@ -86,9 +86,14 @@ type Session struct {
 	// It is the subcontext of sessionCtx.
 	// Mutex is used to prevent Close from accessing inconsistent state when it
 	// is called asynchronously to any SMTP command.
-	msgLock     sync.Mutex
-	msgCtx      context.Context
-	msgTask     *trace.Task
+	msgLock sync.Mutex
+	msgCtx  context.Context
+	msgTask *trace.Task
+	// mailSeen is set once this session object has accepted MAIL for the
+	// current transaction. go-smtp keeps its own flag and recipient list
+	// when EHLO/LHLO replaces the session, so RCPT and DATA can reach
+	// a session that has never seen MAIL.
+	mailSeen    bool
 	mailFrom    string
 	opts        smtp.MailOptions
 	msgMeta     *module.MsgMetadata
@@ -157,6 +162,7 @@ func (s *Session) Reset() {
 	// With deferred MAIL handling there may be no delivery but the error of
 	// a failed start, it belongs to the transaction that ends here.
 	s.deliveryErr = nil
+	s.mailSeen = false
 	s.endp.Log.DebugMsg("reset")
 }
 
@@ -189,6 +195,7 @@ func (s *Session) abort(ctx context.Context) {
 func (s *Session) cleanSession() {
 	s.releaseLimits()
 
+	s.mailSeen = false
 	s.mailFrom = ""
 	s.opts = smtp.MailOptions{}
 	s.msgMeta = nil
@@ -367,6 +374,7 @@ func (s *Session) Mail(from string, opts *smtp.MailOptions) error {
 		s.mailFrom = from
 	}
 	s.opts = *opts
+	s.mailSeen = true
 
 	return nil
 }
@@ -404,9 +412,23 @@ func (s *Session) fetchRDNSName(ctx context.Context) {
 	s.connState.RDNSName.Set(name, nil)
 }
 
+// errNoTransaction is the reply to RCPT and DATA that arrive after EHLO/LHLO
+// was repeated in the middle of a transaction. RFC 5321 Section 4.1.4: the
+// greeting resets the state as RSET does, the client has to start over with
+// MAIL. go-smtp lets the commands through since it does not reset its flags.
+var errNoTransaction = &smtp.SMTPError{
+	Code:         503,
+	EnhancedCode: smtp.EnhancedCode{5, 5, 1},
+	Message:      "MAIL command is required first",
+}
+
 func (s *Session) Rcpt(to string, opts *smtp.RcptOptions) error {
 	s.msgLock.Lock()
 	defer s.msgLock.Unlock()
+
+	if !s.mailSeen {
+		return errNoTransaction
+	}
 
 	// deferServerReject = true and this is the first RCPT TO command.
 	if s.delivery == nil {
@@ -531,6 +553,10 @@ func (s *Session) Data(r io.Reader) error {
 	s.msgLock.Lock()
 	defer s.msgLock.Unlock()
 
+	if s.delivery == nil {
+		return errNoTransaction
+	}
+
 	bodyCtx, bodyTask := trace.NewTask(s.msgCtx, "DATA")
 	defer bodyTask.End()
 
@@ -643,6 +669,10 @@ func (sw *statusWrapper) SetStatus(rcpt string, err error) {
 func (s *Session) LMTPData(r io.Reader, sc smtp.StatusCollector) error {
 	s.msgLock.Lock()
 	defer s.msgLock.Unlock()
+
+	if s.delivery == nil {
+		return errNoTransaction
+	}
 
 	bodyCtx, bodyTask := trace.NewTask(s.msgCtx, "DATA")
 	defer bodyTask.End()
